@@ -31,6 +31,7 @@ class Ctx:
         self.quick = tier == "quick"
         self.t0 = time.time()
         self.notes = []
+        self.round = 0
 
     def note(self, msg):
         self.notes.append(msg)
@@ -122,6 +123,28 @@ def main():
             print("SELFTEST " + ("ok: corrupted traces are rejected" if ok else "FAILED: no corrupted trace was rejected"))
             sys.exit(0 if ok else 1)
         res = mod.run(ctx)
+        if a.tier == "thorough":
+            # thorough = the enlarged scope of the first round, then further rounds of the sampled parts under fresh seeds until the budget is used
+            budget = float(os.environ.get("VERIF_THOROUGH_BUDGET", "900"))
+            rounds, last = 1, time.time() - t0
+            while time.time() - t0 + last < budget and rounds < 50:
+                t1 = time.time()
+                c2 = Ctx(prop, a.tier, seed * 1000 + rounds)
+                c2.round = rounds
+                r2 = mod.run(c2)
+                for d2 in r2.get("design", []):
+                    if not d2.get("ok", True):
+                        res.setdefault("design", []).append(d2)
+                for k in ("states", "transitions", "traces", "evaluations", "distinct_nontrivial"):
+                    res[k] = res.get(k, 0) + r2.get(k, 0)
+                res.setdefault("violations", []).extend(r2.get("violations", []))
+                res.setdefault("deviations", []).extend(r2.get("deviations", [])[:10])
+                for k, v in r2.get("clauses", {}).items():
+                    res.setdefault("clauses", {})[k] = res.get("clauses", {}).get(k, 0) + v
+                rounds += 1
+                last = time.time() - t1
+            res.setdefault("scope", {})["rounds"] = rounds
+            res["exhaustive"] = False if rounds > 1 else res.get("exhaustive", False)
     except tlc.TLCError as ex:
         print("MACHINERY-FAILURE " + str(ex)[:6000])
         sys.exit(2)
